@@ -238,6 +238,87 @@ example :
     (processVerticalMerges [[c false, c false], [c true, c false], [c true, c false]]).map (·.map (·.rowSpan))
       = [[3, 1], [1, 1], [1, 1]] := by decide
 
+/-! ### bounded spans, column repetitions and list levels -/
+
+/-- a span / repetition attribute never yields less than 1 or more than `maxCellSpan`,
+whatever the attribute says (sign, zero, huge, not a number) -/
+theorem boundedSpan_range (s : Str) : 1 ≤ boundedSpan s ∧ boundedSpan s ≤ 1024 := by
+  unfold boundedSpan
+  cases atoi? s with
+  | none => simp
+  | some v =>
+    by_cases h : 0 < v ∧ v ≤ 1024
+    · simp only [h, and_self, if_true]
+      omega
+    · simp only [h, if_false]
+      omega
+
+/-- the edges: 1 and 1024 are taken, 1025, 0, -1, a 32-bit, a 64-bit and a larger value,
+the empty string and a non-number leave the default 1; a leading `+` is a sign -/
+example : boundedSpan [49] = 1 ∧ boundedSpan [49, 48, 50, 52] = 1024 ∧ boundedSpan [49, 48, 50, 53] = 1
+    ∧ boundedSpan [48] = 1 ∧ boundedSpan [45, 49] = 1 ∧ boundedSpan [50, 49, 52, 55, 52, 56, 51, 54, 52, 55] = 1
+    ∧ boundedSpan [57, 50, 50, 51, 51, 55, 50, 48, 51, 54, 56, 53, 52, 55, 55, 53, 56, 48, 55] = 1
+    ∧ boundedSpan [57, 57, 57, 57, 57, 57, 57, 57, 57, 57, 57, 57, 57, 57, 57, 57, 57, 57, 57, 57] = 1
+    ∧ boundedSpan [] = 1 ∧ boundedSpan [120] = 1 ∧ boundedSpan [43, 51] = 3 ∧ boundedSpan [48, 48, 55] = 7 := by
+  decide +kernel
+
+/-- **docx_span_bounded**. Every parsed DOCX cell is 1..1024 grid columns wide. -/
+theorem docx_span_bounded (tc : Node) :
+    1 ≤ (parseCell tc).colSpan ∧ (parseCell tc).colSpan ≤ 1024 := by
+  unfold parseCell
+  exact boundedSpan_range _
+
+/-- **odt_span_bounded**. Every parsed ODT cell spans 1..1024 columns and 1..1024 rows. -/
+theorem odt_span_bounded (tc : Node) :
+    (1 ≤ (Odt.parseCell tc).colSpan ∧ (Odt.parseCell tc).colSpan ≤ 1024)
+    ∧ (1 ≤ (Odt.parseCell tc).rowSpan ∧ (Odt.parseCell tc).rowSpan ≤ 1024) := by
+  unfold Odt.parseCell Odt.spanOf
+  exact ⟨boundedSpan_range _, boundedSpan_range _⟩
+
+theorem sum_map_le {α : Type} (f : α → Nat) (b : Nat) (h : ∀ x, f x ≤ b) :
+    ∀ l : List α, (l.map f).sum ≤ b * l.length := by
+  intro l
+  induction l with
+  | nil => simp
+  | cons x xs ih =>
+    simp only [List.map_cons, List.sum_cons, List.length_cons]
+    have := h x
+    rw [Nat.mul_succ]
+    omega
+
+/-- **odt_columns_bounded**. The column widths of an ODT table number at most 1024 per
+`table:table-column` element (and at least one per element). -/
+theorem odt_columns_bounded (tbl : Node) :
+    Odt.columnCount tbl ≤ 1024 * (childrenNamed tbl.kids Odt.sTableColumn).length := by
+  unfold Odt.columnCount
+  exact sum_map_le _ 1024 (fun col => (boundedSpan_range _).2) _
+
+theorem listLevelFrom_le (s : Str) : ∀ level, level ≤ maxListLevel → listLevelFrom s level ≤ maxListLevel := by
+  induction s with
+  | nil => intro level h; simpa [listLevelFrom] using h
+  | cons c rest ih =>
+    intro level h
+    simp only [listLevelFrom]
+    split
+    · split
+      · exact Nat.le_refl _
+      · apply ih; omega
+    · exact ih level h
+
+/-- **list_level_bounded**. Whatever `w:ilvl` says, the list level is in 0..8. -/
+theorem list_level_bounded (s : Str) : parseListLevel s ≤ 8 :=
+  listLevelFrom_le s 0 (by decide)
+
+/-- the levels WordprocessingML defines are read as written -/
+theorem list_level_valid : ∀ k : Fin 9, parseListLevel [48 + k.val] = k.val := by decide +kernel
+
+/-- the edges: 8 stays, 9 / 10 / 2147483647 / 99999999999999999999 become 8, the sign of
+"-1" is ignored (level 1), the empty string is level 0 -/
+example : parseListLevel [56] = 8 ∧ parseListLevel [57] = 8 ∧ parseListLevel [49, 48] = 8
+    ∧ parseListLevel [50, 49, 52, 55, 52, 56, 51, 54, 52, 55] = 8
+    ∧ parseListLevel [57, 57, 57, 57, 57, 57, 57, 57, 57, 57, 57, 57, 57, 57, 57, 57, 57, 57, 57, 57] = 8
+    ∧ parseListLevel [45, 49] = 1 ∧ parseListLevel [] = 0 ∧ parseListLevel [48, 48, 51] = 3 := by decide +kernel
+
 /-! ### headers / footers -/
 
 /-- **headers_not_in_body**. The element list is a function of document.xml and styles.xml
